@@ -8,10 +8,14 @@
 package bftscen
 
 import (
+	"encoding/json"
 	"fmt"
 	"math/rand/v2"
+	"os"
+	"path/filepath"
 	"sort"
 	"strings"
+	"sync"
 
 	"github.com/canopy-network/canopy/lib"
 	"pgregory.net/rapid"
@@ -29,7 +33,40 @@ const (
 	KFElectPrecom = "KF-C15-election-cert-in-precommit"
 	KFStripBlock  = "KF-C15-evidence-strips-commit-block"
 	KFLockNoEvid  = "KF-C15-lock-loses-evidence"
+	KFBuildHeight = "KF-C15-highqc-forged-build-height"
 )
+
+var (
+	kfOnce sync.Once
+	kfOpen = map[string]bool{}
+)
+
+// findingOpen: open for the property under check (ev.Open) or open at all ($VERIF_ROOT/known_findings.json) - a liveness
+// defect that is open for C15 also stalls the scenarios of C01 and C14, which share this generator.
+func findingOpen(id string) bool {
+	if ev.Open(id) {
+		return true
+	}
+	kfOnce.Do(func() {
+		root := os.Getenv("VERIF_ROOT")
+		if root == "" {
+			root = "/verif"
+		}
+		bz, err := os.ReadFile(filepath.Join(root, "known_findings.json"))
+		if err != nil {
+			return
+		}
+		var doc struct {
+			Findings []struct{ Id, Status string } `json:"findings"`
+		}
+		if json.Unmarshal(bz, &doc) == nil {
+			for _, f := range doc.Findings {
+				kfOpen[f.Id] = f.Status == "open"
+			}
+		}
+	})
+	return kfOpen[id]
+}
 
 // PacemakerVulnerable reports whether the Byzantine validators alone reach the pacemaker threshold of bft.Pacemaker().
 func PacemakerVulnerable(s *bs.Sim) bool {
@@ -47,6 +84,7 @@ type Options struct {
 	CutSteps       int    // stop the scenario once this many simulator steps were taken (0 = never) - C15's GST
 	Families       string // restrict to families, e.g. "F3" (sensitivity experiments); "" = all
 	NoFinish       bool   // do not append the closing clean rounds
+	family         string // drawn by Run before the committee
 	ExtraPartition bool   // with probability 1/2 end the script with a partition segment (C15: replicas spread over rounds at GST)
 }
 
@@ -77,22 +115,23 @@ func (r *Result) Header() string {
 }
 
 type gen struct {
-	t        *rapid.T
-	s        *bs.Sim
-	opt      Options
-	res      *Result
-	rng      *rand.Rand
-	byz      []int
-	honest   []int
-	bumps    int
-	segs     int
-	classes  map[string]bool
-	dMode    string // default behaviour of Byzantine engines outside scripted rounds: "silent" | "honestlike"
-	noise    int    // 0 none, 1 light, 2 heavy (random redelivery / crafted replay)
-	dup      bool
-	pl       plan
-	stash    []*lib.QuorumCertificate // certificates only the adversary holds (formed from votes, never sent)
-	withheld *bs.Proposal             // the proposal of the last withheld certificate
+	t              *rapid.T
+	s              *bs.Sim
+	opt            Options
+	res            *Result
+	rng            *rand.Rand
+	byz            []int
+	honest         []int
+	bumps          int
+	segs           int
+	classes        map[string]bool
+	dMode          string // default behaviour of Byzantine engines outside scripted rounds: "silent" | "honestlike"
+	noise          int    // 0 none, 1 light, 2 heavy (random redelivery / crafted replay)
+	dup            bool
+	pl             plan
+	stash          []*lib.QuorumCertificate // certificates only the adversary holds (formed from votes, never sent)
+	withheld       *bs.Proposal             // the proposal of the last withheld certificate
+	preferWithheld bool                     // the stale re-proposal takes the withheld certificate when it formed
 }
 
 func (g *gen) class(c string) { g.classes[c] = true }
@@ -111,9 +150,19 @@ func (g *gen) cut() bool {
 }
 
 // Committee draws the validator set.
-func Committee(t *rapid.T) (cfg bs.Config, mode string, g1, g2 []int) {
+func Committee(t *rapid.T) (cfg bs.Config, mode string, g1, g2 []int) { return committee(t, false) }
+
+// committee with nearThird draws only committees whose Byzantine power is close to one third (4 equal validators, or a
+// boundary distribution): scenarios in which two conflicting quorums must overlap in the Byzantine validators only.
+func committee(t *rapid.T, nearThird bool) (cfg bs.Config, mode string, g1, g2 []int) {
 	n := rapid.IntRange(4, 7).Draw(t, "n")
 	mode = rapid.SampledFrom([]string{"equal", "equal", "random", "random", "boundary", "boundary", "nobyz"}).Draw(t, "committee")
+	if nearThird {
+		mode = rapid.SampledFrom([]string{"equal", "boundary", "boundary"}).Draw(t, "committeeNearThird")
+		if mode == "equal" {
+			n = 4
+		}
+	}
 	power := make([]uint64, n)
 	byz := make([]bool, n)
 	switch mode {
@@ -211,6 +260,8 @@ func Committee(t *rapid.T) (cfg bs.Config, mode string, g1, g2 []int) {
 	}
 	cfg = bs.Config{Power: power, Byz: byz, Height: uint64(rapid.SampledFrom([]int{1, 2, 3, 5, 8, 12, 15}).Draw(t, "height")), RootHeight: uint64(rapid.IntRange(3, 9).Draw(t, "root")),
 		Seed: rapid.Uint64Range(0, 1<<20).Draw(t, "seed")}
+	// the root height of the committee's last certificate results: proposals built before it are refused (msg.RcBuildHeight check)
+	cfg.LastRootHeightUpdated = cfg.RootHeight - uint64(rapid.IntRange(0, 2).Draw(t, "lastRootUpdated"))
 	return
 }
 
@@ -233,11 +284,17 @@ func perm(t *rapid.T, n int, label string) []int {
 	return p
 }
 
-var families = []string{"F1", "F2", "F3", "F3", "F3", "F4", "F5", "F6"}
+var families = []string{"F1", "F2", "F3", "F3", "F3", "F4", "F5", "F6", "F7", "F7"}
 
 // Run draws a committee and plays a scenario on a fresh simulator. The caller owns res.S (Close it).
 func Run(t *rapid.T, opt Options) *Result {
-	cfg, mode, g1, g2 := Committee(t)
+	fams := families
+	if opt.Families != "" {
+		fams = strings.Split(opt.Families, ",")
+	}
+	fam := rapid.SampledFrom(fams).Draw(t, "family")
+	cfg, mode, g1, g2 := committee(t, fam == "F7")
+	opt.family = fam
 	return RunOn(t, opt, cfg, mode, g1, g2)
 }
 
@@ -249,6 +306,7 @@ type plan struct {
 	r1, r2, r3 uint64
 	rootB      uint64
 	ok         bool
+	preLock    bool // F3: a correct leader's round with partial PRECOMMIT delivery and no commit comes first (round 0)
 	byzLock    bool // F3: the lock round is led by the Byzantine validator too (same block as the withheld certificate, other results)
 }
 
@@ -308,12 +366,15 @@ func RunOn(t *rapid.T, opt Options, cfg bs.Config, mode string, g1, g2 []int) *R
 	if opt.Families != "" {
 		fams = strings.Split(opt.Families, ",")
 	}
-	fam := rapid.SampledFrom(fams).Draw(t, "family")
+	fam := opt.family
+	if fam == "" {
+		fam = rapid.SampledFrom(fams).Draw(t, "family")
+	}
 	bz, hon := byzSet(cfg)
 	if len(bz) == 0 && (fam == "F2" || fam == "F3" || fam == "F6" || fam == "F7") {
 		fam = "F4"
 	}
-	if mode == "boundary" && fam != "F3" && rapid.IntRange(0, 2).Draw(t, "boundaryF6") > 0 {
+	if mode == "boundary" && fam != "F3" && fam != "F7" && rapid.IntRange(0, 2).Draw(t, "boundaryF6") > 0 {
 		fam = "F6"
 	}
 	var pl plan
@@ -335,7 +396,11 @@ func RunOn(t *rapid.T, opt Options, cfg bs.Config, mode string, g1, g2 []int) *R
 		}
 		pl.k3 = rapid.IntRange(0, 1).Draw(t, "k3")
 		pl.byzLock = rapid.IntRange(0, 2).Draw(t, "byzLock") == 0
+		pl.preLock = !pl.byzLock && rapid.Bool().Draw(t, "preLock")
 		pl.r1 = uint64(pl.k1)
+		if pl.preLock {
+			pl.r1++
+		}
 		if pl.bump {
 			pl.rootB, pl.r2 = cfg.RootHeight+1, uint64(pl.k2)
 		} else {
@@ -347,7 +412,7 @@ func RunOn(t *rapid.T, opt Options, cfg bs.Config, mode string, g1, g2 []int) *R
 				return false
 			}
 			l := hon[0] // the replica assumed to have committed (and left) when the re-proposal happens
-			if pl.byzLock {
+			if pl.byzLock || pl.preLock {
 				if !anyByzLeadable(s, pl.rootB, pl.r2, hon) {
 					return false
 				}
@@ -376,7 +441,7 @@ func RunOn(t *rapid.T, opt Options, cfg bs.Config, mode string, g1, g2 []int) *R
 	}
 	priorExcluded := false
 	if len(bz) > 0 && rapid.IntRange(0, 3).Draw(t, "priorEvidence") == 0 {
-		if ev.Open(KFLockNoEvid) {
+		if findingOpen(KFLockNoEvid) {
 			priorExcluded = true
 		} else {
 			cfg.PriorEvidence = true
@@ -524,6 +589,7 @@ type segOpt struct {
 	dropFrom   map[int]bool
 	lead       *bs.ByzLeader
 	extraAfter func(step int, sent []*bs.Env)
+	afterRoute func(step int, sent []*bs.Env)
 	awake      map[int]bool // when set: only these replicas' timers fire and only they receive anything
 	byzActive  bool         // Byzantine engines take part like correct ones in this segment
 }
@@ -588,7 +654,7 @@ func (g *gen) runSeg(o segOpt) []*bs.Env {
 	}
 	pol.After = func(step int, sent []*bs.Env) {
 		// the Byzantine validators help electing `want`
-		if o.want >= 0 && s.R[o.want].Byz && len(sent) > 0 {
+		if o.want >= 0 && (s.R[o.want].Byz || o.byzActive) && len(sent) > 0 {
 			for _, e := range sent {
 				if e.Kind == "ELV" && e.View.RootHeight == root && e.View.Round == round {
 					pay := s.ElectionVotePayload(root, round, o.want)
@@ -610,6 +676,7 @@ func (g *gen) runSeg(o segOpt) []*bs.Env {
 		}
 		g.noiseHook(nr, sent)
 	}
+	pol.AfterRoute = o.afterRoute
 	return s.RunRound(pol)
 }
 
@@ -1052,9 +1119,135 @@ func (g *gen) secondLock() bool {
 		return false
 	}
 	pcTo := g.drawSubset(rest, "secondLockers", false)
-	g.script("second-lock(L=%d,awake=%v,precommit->%v,cut-off=%v)", l, rest, pcTo, lockers)
+	var cmTo []int
+	if rapid.IntRange(0, 3).Draw(g.t, "secondCommit") > 0 {
+		// PRECOMMIT reaches just enough replicas (with the leader and the Byzantine validators) for a COMMIT; one of them commits
+		pcTo = []int{l}
+		for _, i := range perm(g.t, len(rest), "secondOrder") {
+			if s.PowerOf(pcTo)+bz >= s.VS.MinimumMaj23 {
+				break
+			}
+			if rest[i] != l {
+				pcTo = append(pcTo, rest[i])
+			}
+		}
+		sort.Ints(pcTo)
+		// COMMIT reaches nobody but the leader itself (its own copy): the leader commits, the other lockers stay behind locked
+		cmTo = []int{}
+	}
+	g.script("second-lock(L=%d,awake=%v,precommit->%v,commit->%v,cut-off=%v)", l, rest, pcTo, cmTo, lockers)
 	g.class("seg:second-lock")
-	g.runSeg(segOpt{want: l, p: 1, pm: 0, awake: awake, byzActive: true, onlyTo: map[string][]int{"PC": pcTo, "CM": {}}})
+	g.runSeg(segOpt{want: l, p: 1, pm: 0, awake: awake, byzActive: true, onlyTo: map[string][]int{"PC": append(append([]int{}, pcTo...), g.byz...), "CM": cmTo}})
+	return true
+}
+
+// catchUp lets the correct replicas that are behind the front round (they were cut off) time out alone until they
+// are in the front round again.
+func (g *gen) catchUp() {
+	for k := 0; k < 3 && !g.done(); k++ {
+		root, round, _ := g.front()
+		lag := map[int]bool{}
+		for _, i := range g.activeHonest() {
+			if r := g.s.R[i]; r.RootHeight() == root && r.B.Round < round {
+				lag[i] = true
+			}
+		}
+		if len(lag) == 0 {
+			return
+		}
+		g.script("catch-up%v", keysOf(lag))
+		g.runSeg(segOpt{want: -1, p: 0, pm: 0, awake: lag})
+	}
+}
+
+func keysOf(m map[int]bool) (out []int) {
+	for k := range m {
+		out = append(out, k)
+	}
+	sort.Ints(out)
+	return
+}
+
+// someLock returns the lock of some correct replica in the front view.
+func (g *gen) someLock() *lib.QuorumCertificate {
+	_, _, at := g.front()
+	var other *lib.QuorumCertificate
+	for _, i := range at {
+		if h := g.s.R[i].B.HighQC; h != nil {
+			if g.withheld == nil || string(h.BlockHash) != string(g.withheld.BlockHash) {
+				return h // a lock on something else than the withheld proposal
+			}
+			other = h
+		}
+	}
+	return other
+}
+
+// lockedLeaderRound: a round led by the correct replica holding the HIGHEST lock, with every message delivered and the
+// Byzantine engines taking part - replicas locked lower (or lagging) report their older certificates to that leader.
+func (g *gen) lockedLeaderRound() bool {
+	s := g.s
+	root, round, at := g.front()
+	var top *lib.View
+	for _, i := range at {
+		if h := s.R[i].B.HighQC; h != nil && (top == nil || top.Less(h.Header)) {
+			top = h.Header
+		}
+	}
+	best := -1
+	for _, i := range at {
+		if h := s.R[i].B.HighQC; h != nil && top != nil && !h.Header.Less(top) && s.PlanLeader(root, round, i, at).OK {
+			best = i
+			break
+		}
+	}
+	if best < 0 {
+		return false
+	}
+	g.script("locked-leader(L=%d,lock=%d.%d)", best, s.R[best].B.HighQC.Header.RootHeight, s.R[best].B.HighQC.Header.Round)
+	g.class("seg:leader-holds-highest-lock")
+	reported := false
+	g.runSeg(segOpt{want: best, p: 1, pm: 1, byzActive: true, shuffle: true, afterRoute: func(step int, sent []*bs.Env) {
+		// whatever the correct leader proposes, the Byzantine validators vote for it (both vote phases, at once)
+		for _, e := range sent {
+			if e.Kind == "PR" && e.From == best && e.View.Round == round && !e.Crafted {
+				q := e.Msg.Qc
+				for _, ph := range []lib.Phase{bs.ProposeVote, bs.PrecommitVote} {
+					for _, b := range g.byz {
+						v := s.CraftVote(b, s.VotePayload(root, round, ph, q.BlockHash, q.ResultsHash, best), nil, nil, []int{best})
+						_ = s.Deliver(v.ID, best)
+					}
+				}
+			}
+		}
+		// once the election votes of the correct replicas are in, a Byzantine voter reports the OLDEST genuine +2/3
+		// PROPOSE_VOTE certificate of the height (with its block) as its HighQc - the last such vote the leader sees
+		if reported || len(g.byz) == 0 {
+			return
+		}
+		for _, e := range sent {
+			if e.Kind != "ELV" || e.View.RootHeight != root || e.View.Round != round {
+				continue
+			}
+			var old *lib.QuorumCertificate
+			for _, c := range append(append([]*lib.QuorumCertificate{}, g.stash...), s.Certs()...) {
+				if c.Header.Phase == bs.ProposeVote && s.CertPower(c) >= s.VS.MinimumMaj23 && s.FindProposal(c.BlockHash, c.ResultsHash) != nil && (old == nil || c.Header.Less(old.Header)) {
+					old = c
+				}
+			}
+			if old == nil {
+				return
+			}
+			reported = true
+			p := s.FindProposal(old.BlockHash, old.ResultsHash)
+			hq := bs.CloneQC(old)
+			hq.Block, hq.Results = p.Block, p.Results
+			v := s.CraftVoteBuild(g.byz[0], s.ElectionVotePayload(root, round, best), hq, p.RcBuild, []int{best})
+			_ = s.Deliver(v.ID, best)
+			g.class("byz:older-cert-reported-to-locked-correct-leader")
+			return
+		}
+	}})
 	return true
 }
 
@@ -1073,7 +1266,7 @@ func (g *gen) byzRound(d int, variant string) *bs.ByzLeader {
 		g.withheld = wp
 		bl.Props = []*bs.Proposal{wp}
 		bl.Targets = [][]int{at}
-		if rapid.IntRange(0, 2).Draw(g.t, "withholdAll") > 0 {
+		if g.pl.preLock || rapid.IntRange(0, 2).Draw(g.t, "withholdAll") > 0 {
 			bl.StopBefore = bs.Precommit
 		} else {
 			bl.StopBefore = bs.Commit
@@ -1108,6 +1301,61 @@ func (g *gen) byzRound(d int, variant string) *bs.ByzLeader {
 		bl.Props = []*bs.Proposal{px, py}
 		bl.Targets = [][]int{t1, t2}
 		desc += fmt.Sprintf("(%s:%v|%v)", differ, t1, t2)
+	case "relock-same-block":
+		// the block some replicas are locked on since an earlier round is certified AGAIN in this round (justified by their
+		// lock), PRECOMMIT reaches the old lockers and a few more, COMMIT one replica
+		h := g.someLock()
+		prop := s.FindProposal(h.BlockHash, h.ResultsHash)
+		if prop == nil {
+			prop = s.NewProposal(d, fmt.Sprintf("R/%d/%d", root, round), root)
+			h = nil
+		}
+		var lockers, fresh []int
+		for _, i := range at {
+			if l := s.R[i].B.HighQC; l != nil && h != nil && string(l.BlockHash) == string(h.BlockHash) {
+				lockers = append(lockers, i)
+			} else if rapid.IntRange(0, 2).Draw(g.t, "relockMore") == 0 {
+				lockers = append(lockers, i)
+				fresh = append(fresh, i)
+			}
+		}
+		var bzp uint64
+		for _, b := range g.byz {
+			bzp += s.Cfg.Power[b]
+		}
+		for _, i := range at {
+			if s.PowerOf(lockers)+bzp >= s.VS.MinimumMaj23 {
+				break
+			}
+			in := false
+			for _, x := range lockers {
+				in = in || x == i
+			}
+			if !in {
+				lockers = append(lockers, i)
+				fresh = append(fresh, i)
+			}
+		}
+		if len(lockers) == 0 {
+			lockers = at
+		}
+		pool := fresh
+		if len(pool) == 0 {
+			pool = lockers
+		}
+		committers := []int{pool[rapid.IntRange(0, len(pool)-1).Draw(g.t, "relockCommitter")]}
+		var hq *lib.QuorumCertificate
+		if h != nil {
+			hq = bs.CloneQC(h)
+			hq.Block, hq.Results = nil, nil
+		}
+		bl.Props = []*bs.Proposal{prop}
+		bl.HighQcs = []*lib.QuorumCertificate{hq}
+		bl.Targets = [][]int{at}
+		bl.PrecommitTo = [][]int{lockers}
+		bl.CommitTo = [][]int{committers}
+		desc += fmt.Sprintf("(block=%s precommit->%v commit->%v)", bs.Short(prop.BlockHash), lockers, committers)
+		g.class("byz:locked-block-certified-again")
 	case "lock-same-block":
 		// the Byzantine leader proposes the block of the certificate it withheld, with OTHER certificate results, lets a
 		// drawn set lock (enough for a COMMIT) and lets only some commit
@@ -1156,6 +1404,14 @@ func (g *gen) byzRound(d int, variant string) *bs.ByzLeader {
 				for _, c := range all {
 					if c.Header.Phase == bs.ProposeVote && s.CertPower(c) >= s.VS.MinimumMaj23 && s.FindProposal(c.BlockHash, c.ResultsHash) != nil {
 						cands = append(cands, c)
+					}
+				}
+			}
+			if g.preferWithheld && g.withheld != nil {
+				for _, c := range cands {
+					if string(c.BlockHash) == string(g.withheld.BlockHash) && string(c.ResultsHash) == string(g.withheld.ResultsHash) {
+						cands = []*lib.QuorumCertificate{c}
+						break
 					}
 				}
 			}
@@ -1253,6 +1509,12 @@ func (g *gen) famEquivocate() {
 // with partial commit, k3 burnt rounds, re-proposal) and the sortition seed was searched so that the plan is feasible.
 func (g *gen) famWithheld() {
 	g.classIf(!g.pl.ok, "plan:no-seed")
+	if g.pl.preLock {
+		// A gets a +2/3 PROPOSE_VOTE certificate and is locked by some in round 0, nobody commits; later (lock round below)
+		// the same block is certified again in a later round - between the two the Byzantine leader's certificate for B
+		g.class("f3:same-block-certified-twice")
+		g.lockRoundN(false, true)
+	}
 	for i := g.pl.k1; i > 0 && !g.done(); i-- {
 		g.burn()
 	}
@@ -1276,19 +1538,31 @@ func (g *gen) famWithheld() {
 	}
 	if d2, ok2 := g.leadable(); g.pl.byzLock && ok2 {
 		g.byzRound(d2, "lock-same-block")
+	} else if g.pl.preLock && ok2 && g.someLock() != nil {
+		g.byzRound(d2, "relock-same-block")
 	} else {
 		g.lockRound(rapid.IntRange(0, 5).Draw(g.t, "allLock") > 0)
 	}
-	if rapid.IntRange(0, 7).Draw(g.t, "bumpAfterLock") == 0 {
-		g.bump()
+	if !g.pl.preLock {
+		if rapid.IntRange(0, 7).Draw(g.t, "bumpAfterLock") == 0 {
+			g.bump()
+		}
+		g.maybeDup()
 	}
-	g.maybeDup()
 	for i := g.pl.k3; i > 0 && !g.done(); i-- {
 		g.burn()
+	}
+	if !g.pl.preLock && rapid.IntRange(0, 4).Draw(g.t, "correctLeaderNext") < 2 && g.lockedLeaderRound() {
+		return
 	}
 	d, ok = g.untilLeadable(2)
 	if !ok {
 		g.class("byz-not-electable")
+		return
+	}
+	if g.pl.preLock {
+		g.preferWithheld = true
+		g.byzRound(d, "stale")
 		return
 	}
 	g.byzRound(d, rapid.SampledFrom([]string{"stale", "stale", "stale", "stale", "fresh", "partialhqc"}).Draw(g.t, "unlockWith"))
@@ -1307,6 +1581,12 @@ func (g *gen) famPartialCommit() {
 		g.lockRoundN(false, true)
 		if !g.done() {
 			g.secondLock()
+		}
+		if rapid.Bool().Draw(g.t, "lockedLeaderNext") && !g.done() {
+			g.catchUp()
+			if !g.done() {
+				g.lockedLeaderRound()
+			}
 		}
 	} else {
 		g.lockRound(rapid.Bool().Draw(g.t, "allLock"))
@@ -1334,16 +1614,24 @@ func (g *gen) famPartialCommit() {
 // F7 (used by C15): correct replicas end up locked on different blocks at different views - a few lock X in a correct
 // leader's round, then, cut off from them, the others (Byzantine validators taking part) lock a fresh Y in a later round.
 func (g *gen) famConflictingLocks() {
-	for i := rapid.IntRange(0, 1).Draw(g.t, "pre"); i > 0 && !g.done(); i-- {
+	if rapid.IntRange(0, 3).Draw(g.t, "pre") == 0 && !g.done() {
 		g.lossy()
 	}
 	g.lockRoundN(false, true)
 	if !g.done() && !g.secondLock() {
 		g.class("second-lock-not-possible")
 	}
-	g.maybeBump(4)
-	if rapid.Bool().Draw(g.t, "afterPartition") && !g.done() {
-		g.partition()
+	g.maybeBump(8)
+	switch rapid.IntRange(0, 5).Draw(g.t, "afterConflict") {
+	case 0:
+		if !g.done() {
+			g.partition()
+		}
+	default:
+		g.catchUp()
+		if !g.done() && !g.lockedLeaderRound() {
+			g.clean(false)
+		}
 	}
 }
 
